@@ -3,7 +3,7 @@ from tools.extract import Unit, Rw
 from tools.krun import Harness
 
 PROPERTY = "C19"
-PRELUDE = ["../common/base.rs", "prelude.rs"]
+PRELUDE = ["../common/base.rs", "../common/io.rs", "prelude.rs", "cache_io.rs"]
 CA = "crates/core/src/backend/cache.rs"
 BE = "crates/core/src/backend.rs"
 R_LOG = Rw("", "", count=None, kind="log", why="logging removed")
@@ -56,8 +56,9 @@ UNITS += [
          contract="""
     requires old(self).content_addressed(),
     ensures
-        /*@cached_ranged_read_returns_that_range_of_the_content*/ r matches Ok(d) ==> offset + length <= CONTENT((tpe, *id)).len()
-            && d.data@ == CONTENT((tpe, *id)).subrange(offset as int, offset + length),
+        // (a zero-length read is answered with no bytes wherever it points; the file-system layer does the same)
+        /*@cached_ranged_read_returns_that_range_of_the_content*/ r matches Ok(d) ==> d.data@.len() == length && (length > 0 ==> offset + length <= CONTENT((tpe, *id)).len()
+            && d.data@ == CONTENT((tpe, *id)).subrange(offset as int, offset + length)),
         /*@ranged_read_of_uncacheable_bypasses_cache*/ !(cacheable || tpe is Snapshot || tpe is Index) ==> final(self).cache@ == old(self).cache@,
         /*@ranged_read_fills_cache_only_with_this_file*/ final(self).cache@ == old(self).cache@ || final(self).cache@ == old(self).cache@.insert((tpe, *id), CONTENT((tpe, *id))),
         /*@ranged_read_keeps_stores_content_addressed*/ final(self).content_addressed() && final(self).be@ == old(self).be@,
@@ -126,6 +127,38 @@ UNITS += [
          ),
 ]
 KANI = []
+# ---- Cache::{read_full, read_partial}: the file-system side of a cache hit, over the std::io model
+R_MAPERR = Rw("", "", count=None, kind="maperr", why=".map_err(<error building closure>) -> .vmap_err()")
+WC = dict(wrap_open="impl CacheIo {", wrap_close="}")
+UNITS += [
+    Unit(name="cache_read_full", file=CA, anchor="pub fn read_full(&self, tpe: FileType, id: &Id) -> RusticResult<Option<Bytes>>", within="impl Cache {", ret_name="r", **WC,
+         functions=["backend::cache::Cache::read_full"],
+         rewrites=[R_LOG, R_ERR,
+                   Rw("fs::read(&path)", "self.vfs_read(&path)", why="std::fs::read -> ghost file-system stub"),
+                   Rw("err.kind() == io::ErrorKind::NotFound", "verr_is_not_found(&err)", why="io::Error::kind comparison -> stub"),
+                   Rw("data.into()", "vbytes_of_vec(data)", why="Vec<u8> -> Bytes")],
+         contract="""
+    ensures /*@cache_hit_is_the_whole_entry*/ r matches Ok(Some(d)) ==> self@.dom().contains((tpe, *id)) && d.data@ == self@[(tpe, *id)],
+"""),
+    Unit(name="cache_read_partial", file=CA, anchor="pub fn read_partial(\n        &self,\n        tpe: FileType,\n        id: &Id,\n        offset: u32,\n        length: u32,\n    ) -> RusticResult<Option<Bytes>>", within="impl Cache {", ret_name="r", **WC,
+         functions=["backend::cache::Cache::read_partial"],
+         rewrites=[R_LOG, R_ERR, R_MAPERR,
+                   Rw("File::open(&path)", "self.vopen(&path)", why="File::open -> ghost file-system stub"),
+                   Rw("err.kind() == io::ErrorKind::NotFound", "verr_is_not_found(&err)", why="io::Error::kind comparison -> stub"),
+                   Rw(r"u64::from\((\w+)\)", r"(\1 as u64)", regex=True, count=None, why="u64::from(u32) -> cast"),
+                   Rw(r"file\s*\.seek\(SeekFrom::Start\(([^;]*?)\)\)(?=\s*\.v?map_err)", r"vseek_start(&mut file, \1)", regex=True, why="Seek::seek(SeekFrom::Start(..)) -> io model stub"),
+                   Rw(r"vec!\[0; (\w+) as usize\]", r"vzeroed_vec(\1 as usize)", regex=True, why="vec![0; n] -> stub: n bytes"),
+                   Rw("file.read_exact(&mut vec)", "vstd_read_exact(&mut file, &mut vec)", why="Read::read_exact -> io model (fills the buffer or fails)"),
+                   Rw(r"file\.take\(([^;]*?)\)\.read_to_end\(&mut vec\)", r"vstd_take_read_to_end(&mut file, \1, &mut vec)", regex=True, why="Read::take(n).read_to_end -> io model (up to n bytes, fewer at end of file)"),
+                   Rw("vec.into()", "vbytes_of_vec(vec)", why="Vec<u8> -> Bytes")],
+         contract="""
+    ensures
+        // a cache hit is exactly the requested range of the cached entry (a shorter entry is no hit)
+        /*@cache_hit_is_exactly_the_requested_range*/ r matches Ok(Some(d)) ==> self@.dom().contains((tpe, *id)) && d.data@.len() == length
+            && (length > 0 ==> offset + length <= self@[(tpe, *id)].len() && d.data@ =~= self@[(tpe, *id)].subrange(offset as int, offset + length)),
+"""),
+]
+
 META = {"not_covered": [
     "the statement's quantifier: histories through a cached and an uncached handle, stale/truncated/foreign files planted in the cache directory -- only the single-call building blocks are decided here",
     "Cache itself (file-system code): tmp+rename writes, read_full / read_partial of cached files, list_with_size (directory walk), remove -- stubs with map semantics; remove_not_in_list IS a unit",
